@@ -196,6 +196,19 @@ def arb_cases(tier, seed):
         ag = ArbitrageAgent(agent_id=5, prng=random.Random(2), simulator=sim, name="arb")
         ag.setup(settings={"cashAmount": 1000, "assetVolume": 10, "orderVolume": v, "orderThresholdPrice": thr, "orderTimeLength": ttl},
                  accessible_markets_ids=list(range(nc + 1)))
+        if rng.random() < 0.4:
+            # the decision is taken a second time in the SAME step after a component has traded at another price: it
+            # follows the index as it is now, not as it was when it was first looked at
+            call(ag, comps + [idx])
+            idx.get_market_index()
+            movers = [c for c in comps if c.is_running]
+            if movers:
+                c0 = rng.choice(movers)
+                p2 = c0.get_market_price() + rng.choice([-8.0, -4.0, 4.0, 8.0])
+                c0._add_order(Order(agent_id=99, market_id=c0.market_id, is_buy=True, kind=LIMIT_ORDER, volume=1, price=p2))
+                c0._add_order(Order(agent_id=99, market_id=c0.market_id, is_buy=False, kind=LIMIT_ORDER, volume=1, price=p2))
+                c0._execution()
+                ival = sum(c.get_market_price() for c in comps) / nc
         st, orders = call(ag, comps + [idx])
         pok = True
         for o in orders:
